@@ -5,7 +5,9 @@
 // {string threshold 0,3,20,10^6} the real serializer streams into a recording px.ValueConsumer that
 // feeds the real deserializer.  D: the stream clauses and the round trip are evaluated directly on what
 // the implementation did.  M: value, options, observed events and observed result are written as
-// Gallina terms; coq/Corr/CorrC10.v recomputes events and result with the model.
+// Gallina terms; coq/Corr/CorrC10.v recomputes events and result with the model.  Values that travel as an
+// instance of their meta type (parameterized types over user types, spec kind ptype) are written with ALL
+// their attributes: the trailing-default trimming and the way back are the model's (Model/SerAttrs.v).
 package main
 
 import (
